@@ -3,7 +3,7 @@ canonical run of each scenario, then exhaustive exploration of what can happen a
 import copy, json
 from . import common
 from harness import corpus
-from harness.corpus import chain, Task, Pass, Wait, Parallel, Map, scenario, OK, ERR
+from harness.corpus import chain, Task, Pass, Wait, Parallel, Map, scenario, multi, OK, ERR
 
 PROP = "C04"
 MONITORS = ("M-crash",)
@@ -23,13 +23,26 @@ def scenarios(tier):
     d = chain(("A", Pass()), ("W", Wait(3)), Z); d["TimeoutSeconds"] = 4
     add("crash-wait-tight-deadline", d, downtime=2)
     # a stale reply (its task timed out before the crash) parked in front of the reply of a task that was in flight at the crash
-    from harness.corpus import multi
     mx = chain(("X", Task("fx", TimeoutSeconds=1, Catch=[{"ErrorEquals": ["States.ALL"], "Next": "ZX", "ResultPath": "$.e"}])), ("ZX", Pass()))
     my = chain(("Y", Task("fy", TimeoutSeconds=3)), ("ZY", Pass()))
     out.append(multi("crash-stale-reply", {"mx": {"definition": mx}, "my": {"definition": my}},
                      [{"machine": "mx", "name": "e1", "input": {}}, {"machine": "my", "name": "e2", "input": {}}],
                      workers={"fx": {"*": [["delay", ["ok", "late-x"]]]}, "fy": {"*": [["delay", ["ok", "y"]]]}},
                      schedule="timed", delay_budget=1, canonical_avoid=[["wreply", "fx"], ["wreply", "fy"]], crash_from=11))
+    # a branch that has *finished* (its last event is held unacknowledged for the join) while a sibling is still outstanding
+    add("crash-parallel-wait-end", chain(("P", Parallel([chain(("A1", Wait(1))), chain(("B1", Task("fb")))])), Z), workers={"fb": {"*": [["delay", ["ok", "b"]]]}})
+    add("crash-parallel-pass-end", chain(("P", Parallel([chain(("A1", Pass(Result="a"))), chain(("B1", Wait(2)))])), Z))
+    add("crash-map-wait-items", chain(("M", Map(chain(("I", Wait(SecondsPath="$"))))), Z), input=[1, 2])
+    add("crash-choice-succeed", chain(("C", corpus.Choice([{"Variable": "$.x", "NumericEquals": 1, "Next": "W"}], default="Z")), ("W", Wait(1, Next="S")), ("S", corpus.Succeed()), Z), input={"x": 1})
+    # synchronous child executions: the pending request is keyed by the child's ARN, which must survive the restart
+    SFN = "arn:aws:states:local::states:"
+    child = chain(("CW", Wait(2)), ("CZ", Pass(Result="done", ResultPath="$.z")))
+    for form, nm in (("startExecution.sync:2", "named"), ("startExecution.sync", "unnamed")):
+        params = {"StateMachineArn": corpus.sm_arn("c"), "Input": {"from": "parent"}}
+        if nm == "named":
+            params["Name"] = "c1"
+        parent = chain(("L", {"Type": "Task", "Resource": SFN + form, "Parameters": params, "ResultSelector": {"st.$": "$.Status", "out.$": "$.Output"}, "ResultPath": "$.child"}), Z)
+        out.append(multi("crash-sync-child-%s" % nm, {"m": {"definition": parent}, "c": {"definition": child}}, [{"machine": "m", "name": "e1", "input": {"k": 1}}], family="crash-sync-child-%s" % nm))
     if tier == "thorough":
         add("crash-parallel-2x2", chain(("P", Parallel([chain(("A1", Task("fa")), ("A2", Task("fa2"))), chain(("B1", Task("fb")), ("B2", Wait(1)))])), Z),
             workers={"fa": {"*": OK("a")}, "fb": {"*": OK("b")}, "fa2": {"*": OK("a2")}})
